@@ -13,10 +13,16 @@ def _posts(res):
 
 
 FAMS = [
-    PoolMixFamily("C07", "progress-async-clean", 2500, 40000,
+    PoolMixFamily("C07", "progress-async-clean", 2000, 40000,
                   {"exec": "asyncio", **OPTS}, [oracles.WaiterObserver], [_posts]),
-    PoolMixFamily("C07", "progress-async-cancels", 2500, 40000,
+    PoolMixFamily("C07", "progress-async-cancels", 2000, 40000,
                   {"exec": "asyncio", "faulty": True, "cancels": True,
+                   "cancel_kinds": ["scope", "deadline"], **OPTS},
+                  [oracles.WaiterObserver], [_posts]),
+    # cancellations with no fault and hence mostly no time-outs: a connection left
+    # unusable by a cancelled request shows as a caller blocked forever
+    PoolMixFamily("C07", "progress-async-cancels-only", 1500, 30000,
+                  {"exec": "asyncio", "cancels": True,
                    "cancel_kinds": ["scope", "deadline"], **OPTS},
                   [oracles.WaiterObserver], [_posts]),
     PoolMixFamily("C07", "progress-trio", 1200, 20000,
